@@ -85,6 +85,20 @@ def build_plain(path, r, page_size=1024, rows=60):
     con.close()
 
 
+def build_large(path, r):
+    """the plain schema on 64 KiB pages plus a table of large blobs: an evidence file of more than 8 MiB (a threshold at
+    which a reader may switch to another way of opening the file) that is still cheap to parse"""
+    build_plain(path, r, page_size=65536, rows=30)
+    con = sqlite3.connect(path, isolation_level=None)
+    con.execute("CREATE TABLE bulk (id INTEGER PRIMARY KEY, payload BLOB)")
+    con.execute("BEGIN")
+    for i in range(150):
+        con.execute("INSERT INTO bulk VALUES (?, zeroblob(60000))", (i,))
+    con.execute("COMMIT")
+    con.close()
+    assert os.path.getsize(path) > (8 << 20), os.path.getsize(path)
+
+
 def build_wal(path, r, commits=4, page_size=1024):
     """database + -wal (+ -shm) copied while the connections are open, so nothing is checkpointed"""
     work = path + ".work"
@@ -205,6 +219,8 @@ class Pool:
         build_wal(p, r)
         d, p = self._new("journal", "jn.db")
         build_journal(p, r)
+        d, p = self._new("large", "large.db")
+        build_large(p, r)
         d, p = self._new("freelist", "fl.db")
         build_freelist(p, r)
         d, p = self._new("both", "both.db")
@@ -392,6 +408,8 @@ class Locator:
         self.roots = [("EVIDENCE", os.path.join(sb, "ev")), ("OUTPUT", os.path.join(sb, "out")),
                       ("LOG", os.path.join(sb, "logs")), ("CONFIG", os.path.join(sb, "cfg")),
                       ("TEMP", os.path.join(sb, "tmp"))]
+        # output locations a run names relative to its working directory: (label, path below the sandbox)
+        self.roots = [(lab, os.path.join(sb, rel)) for lab, rel in extra_out] + self.roots
 
     def where(self, p):
         if not isinstance(p, str):
@@ -548,7 +566,8 @@ def execute(job):
         res["pre"] = pre
         ev_after = snapshot(m["ev"])
         all_after = snapshot(sb, skip=("events.jsonl",))
-        loc = Locator(sb)
+        extra = [tuple(x) for x in job.get("extra_roots", [])]
+        loc = Locator(sb, extra)
         fails, dis, stats = judge(res["events"], loc, norm_table(job["table"]))
         evd = snap_diff(ev_before, ev_after)
         for kind, name in evd:
@@ -557,6 +576,8 @@ def execute(job):
         for kind, name in snap_diff(all_before, all_after):
             top = name.split(os.sep)[0].rstrip("/")
             if top in ("out", "logs"):
+                continue
+            if any(name.rstrip("/") == rel or name.startswith(rel + os.sep) for _, rel in extra):
                 continue
             if top == "ev":
                 continue   # reported above
